@@ -9,7 +9,7 @@ import (
 func sanitizeSelectionSet(ctx *PlanningContext, selectionSet ast.SelectionSet, insertionPoint []string) (ast.SelectionSet, ScrubFields) {
 	scrubFields := make(ScrubFields)
 	var result ast.SelectionSet
-	for _, s := range selectionSet {
+	for _, s := range mergeFieldsWithSameKey(selectionSet) {
 		switch s := s.(type) {
 		case *ast.Field:
 			if len(s.SelectionSet) != 0 {
@@ -160,22 +160,60 @@ func addScrubFieldsToSelectionSet(ctx *PlanningContext, selectionSet ast.Selecti
 	return selectionSet, addedFields
 }
 
-func addSelectionSetToSanitizedResult(s ast.SelectionSet, ss ...ast.Selection) ast.SelectionSet {
-	ss = lo.Filter(ss, func(sel ast.Selection, i int) bool {
+// mergeFieldsWithSameKey joins sibling fields which answer under the same response key
+// ({ user { name } user { email } }) into one field carrying the selections of all of them
+func mergeFieldsWithSameKey(selectionSet ast.SelectionSet) ast.SelectionSet {
+	var result ast.SelectionSet
+	for _, sel := range selectionSet {
 		f, ok := sel.(*ast.Field)
-		if ok && selectionSetHasFieldKeyed(s, f.Alias) {
-			return false
+		if !ok {
+			result = append(result, sel)
+			continue
 		}
-		return true
+		i := selectionSetIndexOfFieldKeyed(result, f.Alias)
+		if i < 0 {
+			result = append(result, sel)
+			continue
+		}
+		merged := *result[i].(*ast.Field)
+		merged.SelectionSet = append(append(ast.SelectionSet{}, merged.SelectionSet...), f.SelectionSet...)
+		result[i] = &merged
+	}
+	return result
+}
 
-	})
-	return append(s, ss...)
+func addSelectionSetToSanitizedResult(s ast.SelectionSet, ss ...ast.Selection) ast.SelectionSet {
+	for _, sel := range ss {
+		f, ok := sel.(*ast.Field)
+		if !ok {
+			s = append(s, sel)
+			continue
+		}
+		i := selectionSetIndexOfFieldKeyed(s, f.Alias)
+		if i < 0 {
+			s = append(s, sel)
+			continue
+		}
+		if len(f.SelectionSet) == 0 {
+			continue
+		}
+		// fields which answer under the same response key are one field for the client:
+		// the selections of the later one are merged into (a copy of) the earlier one
+		merged := *s[i].(*ast.Field)
+		merged.SelectionSet = addSelectionSetToSanitizedResult(append(ast.SelectionSet{}, merged.SelectionSet...), f.SelectionSet...)
+		s[i] = &merged
+	}
+	return s
 }
 
 // selectionSetHasFieldKeyed reports whether the selection set already contains
 // a field which answers under the given response key
 func selectionSetHasFieldKeyed(ss []ast.Selection, key string) bool {
-	for _, selection := range ss {
+	return selectionSetIndexOfFieldKeyed(ss, key) >= 0
+}
+
+func selectionSetIndexOfFieldKeyed(ss []ast.Selection, key string) int {
+	for i, selection := range ss {
 		field, ok := selection.(*ast.Field)
 		if !ok {
 			continue
@@ -185,8 +223,8 @@ func selectionSetHasFieldKeyed(ss []ast.Selection, key string) bool {
 			fieldKey = field.Name
 		}
 		if fieldKey == key {
-			return true
+			return i
 		}
 	}
-	return false
+	return -1
 }
